@@ -134,6 +134,7 @@ func checkGuardInventory(c *Ctx, r *Run, rule, tableFile string, filter func(fna
 		return
 	}
 	cur := map[string]map[string]guard{}
+	all := map[string]map[string][]guard{}
 	for _, fn := range inventoryFuncs(c) {
 		name := c.FuncName(fn)
 		if !filter(name) {
@@ -145,6 +146,10 @@ func checkGuardInventory(c *Ctx, r *Run, rule, tableFile string, filter func(fna
 			if old, ok := m[g.key()]; !ok || (!guardCoversAccepts(old) && guardCoversAccepts(g)) {
 				m[g.key()] = g
 			}
+			if all[name] == nil {
+				all[name] = map[string][]guard{}
+			}
+			all[name][g.key()] = append(all[name][g.key()], g)
 		}
 		cur[name] = m
 	}
@@ -158,6 +163,22 @@ func checkGuardInventory(c *Ctx, r *Run, rule, tableFile string, filter func(fna
 	for _, fname := range names {
 		m, ok := cur[fname]
 		if !ok {
+			// an unexported helper that changed kind (method of T <-> plain function over T's fields) keeps its name; its
+			// labels are then spelled differently (recv.p / Modulus#0), so its guards are compared by what decides
+			if alt := sameHelperOtherKind(fname, cur); alt != "" {
+				have := map[string]int{}
+				for k2 := range cur[alt] {
+					have[strings.SplitN(k2, "(", 2)[0]]++
+				}
+				for _, k := range tab[fname] {
+					k = strings.TrimPrefix(k, "~")
+					dk := strings.SplitN(k, "(", 2)[0]
+					okd := have[dk] > 0
+					have[dk]--
+					r.Check(rule, fname+"|"+k, "?", okd, "reject guard "+k+" is present (the helper is now "+alt+": compared by decider)", "reject guard "+k+" recorded for "+fname+" has no counterpart in "+alt)
+				}
+				continue
+			}
 			r.Unresolved(rule, fname)
 			continue
 		}
@@ -173,6 +194,26 @@ func checkGuardInventory(c *Ctx, r *Run, rule, tableFile string, filter func(fna
 			if present {
 				pos = c.Pos(g.pos)
 				okc = conditional || guardCoversAccepts(g)
+				if !okc {
+					// the same decision taken separately on branches that each end in their own accepting return (on one
+					// of them possibly over fewer of the data: NewSession(info, id, pl) / NewSession(info, id, pl, c))
+					js := append([]guard(nil), all[fname][k]...)
+					for k2, gs2 := range all[fname] {
+						if k2 == k || len(gs2) == 0 || gs2[0].decider != g.decider {
+							continue
+						}
+						sub := true
+						for _, f := range gs2[0].fields {
+							if !containsField(g.fields, f) {
+								sub = false
+							}
+						}
+						if sub {
+							js = append(js, gs2...)
+						}
+					}
+					okc = guardsJointlyCover(js)
+				}
 				if !okc {
 					d = "guard " + k + " no longer covers every accepting exit of " + fname
 				}
@@ -702,4 +743,47 @@ func loadedRecvField(v ssa.Value) string {
 var decidedElsewhere = map[string]string{
 	"internal/bip32.DeriveScalar|>> const != const(uint32)":                        "SPEC-1 hardened-refused",
 	"pkg/math/curve.(*Secp256k1Point).UnmarshalBinary|!= const & != const([]byte)": "DEC-1 prefix-refused / prefix-accepted (evaluation over all 256 prefix bytes)",
+}
+
+// sameHelperOtherKind: fname names an unexported method pkg.(T).f or function pkg.f that no longer exists while the
+// other kind with the same name does (uniquely) in the same package.
+func sameHelperOtherKind(fname string, cur map[string]map[string]guard) string {
+	dot := strings.LastIndex(fname, ".")
+	if dot < 0 || dot+1 >= len(fname) {
+		return ""
+	}
+	base := fname[dot+1:]
+	if base[0] < 'a' || base[0] > 'z' {
+		return ""
+	}
+	head := fname[:dot]
+	pkg := head
+	isMethod := strings.HasSuffix(head, ")")
+	if isMethod {
+		i := strings.LastIndex(head, ".(")
+		if i < 0 {
+			return ""
+		}
+		pkg = head[:i]
+	}
+	found := ""
+	for n := range cur {
+		if n == fname || !strings.HasSuffix(n, "."+base) {
+			continue
+		}
+		h2 := n[:len(n)-len(base)-1]
+		if isMethod && h2 == pkg {
+			if found != "" {
+				return ""
+			}
+			found = n
+		}
+		if !isMethod && strings.HasPrefix(h2, pkg+".(") && strings.HasSuffix(h2, ")") && !strings.Contains(h2[len(pkg)+2:], "/") {
+			if found != "" {
+				return ""
+			}
+			found = n
+		}
+	}
+	return found
 }
